@@ -116,6 +116,7 @@ class BinningBase:
 
     @staticmethod
     def from_dict(a_dict: Dict[str, Any]) -> BinningBase:
+        a_dict = dict(a_dict)  # the caller's tree is not ours to take entries from
         binning_type = a_dict.pop("binning_type", "StaticBinning")
         klass = find_subclass(BinningBase, binning_type)
         return klass(**a_dict)
